@@ -19,6 +19,14 @@ CHECKS = {
          "seeded search; envelope checked on every in-season day against the season's crop parameters", "DESIGN.md section 6 C05", "reads the season's crop parameters from the initialised model"),
  "C16": ("exploration", "deterministic simulation: covering catalogue sweep (crop x soil pairs by index, other dimensions and events PRNG-drawn), exception classifier + finiteness + termination as the invariant",
          "seeded catalogue exploration with injected weather events; every exception is classified by type, message and call site; sampling, not proof", "DESIGN.md section 6 C16", "the list of permitted rejections in dst/domain.py encodes the property text"),
+ "C06": ("exploration", "deterministic simulation: seeded swarm with crop-death and cap events; per-day yield identities plus an exactly-once history check of the seasonal summary against observed harvest days",
+         "seeded search; the summary is checked as a history (one row per harvested season, in order, equal to the harvest day's daily values)", "DESIGN.md section 6 C06", "harvest days are observed from state flags between steps"),
+ "C07": ("exploration", "deterministic simulation: seeded windows x step partitions; simulated-day history decided against an independent date-arithmetic reference model, bounded liveness",
+         "seeded search over window shapes and call partitions; the recorded day history is checked against a reference calendar driven by observed season-end events; every run must finish within len(time_span) calls", "DESIGN.md section 6 C07", "season-end events are read through the termination-check seam; maturity thresholds come from the season's crop parameters"),
+ "C08": ("exploration", "deterministic simulation: the season reset as an internal restart, compared bitwise with fresh single-season nodes built from fresh objects",
+         "seeded search over multi-season bundles with events that make earlier seasons end away from the initial condition; every season k >= 1 compared bitwise with a fresh run", "DESIGN.md section 6 C08", "fresh objects built from the same spec are the oracle; inputs that legitimately differ are excluded and named"),
+ "C09": ("exploration", "deterministic simulation: seeded scheduler of run_model call partitions (random, boundary-aligned, exhaustive compositions of short windows and of forked suffixes), neighbour noise, bitwise comparison with the uninterrupted run",
+         "seeded search over call schedules plus exhaustively enumerated sub-spaces (all compositions of windows <= 9 days and of the last <= 7 steps before each harvest/termination from a checkpoint fork)", "DESIGN.md section 6 C09", "deepcopy fork of a model is checked for fidelity before it is used"),
 }
 
 NOT_APPLICABLE = {
